@@ -43,9 +43,11 @@ def build_model(kind):
   return m, knobs
 
 
-def sched_replay(behaviours, events):
+def sched_replay(behaviours, events, shard=0, nshards=1):
   x = f32(np.arange(6).reshape(2, 3) / 4.0)
   for t, b in enumerate(behaviours):
+    if t % nshards != shard:
+      continue
     sp = b["sp"]
     built0 = [q["built"] for q in b["q0"]]
     m, knobs = build_model("deferred")
@@ -103,10 +105,13 @@ class Recording(QNoiseScheduler):
     super().on_train_end(logs); self._log("TrainEnd")
 
 
-def fit_runs(rnd, n, events, t0):
+def fit_runs(seed, n, events, t0, shard=0, nshards=1):
   xs = f32(np.random.RandomState(1).uniform(-1, 1, (8, 3)))
   ys = f32(np.random.RandomState(2).uniform(-1, 1, (8, 2)))
   for j in range(n):
+    if j % nshards != shard:
+      continue
+    rnd = random.Random("%d/fit/%d" % (seed, j))
     sp = {"start": rnd.randint(0, 3), "finish": 0, "exponent": rnd.choice([1, 2, 3]), "freq": rnd.randint(1, 3),
           "type": rnd.choice(["step", "epoch"]), "init": rnd.randint(0, 2)}
     sp["finish"] = sp["start"] + rnd.randint(0, 4)
@@ -140,11 +145,13 @@ KNOB_CLASSES = {
 ERRORS = []
 
 
-def knob_replay(behaviours, events, rnd):
+def knob_replay(behaviours, events, rnd, shard=0, nshards=1):
   x = f32([-3.0, -1.25, -0.4375, -0.0625, 0.0, 0.09375, 0.3125, 0.71875, 1.5, 2.75, 7.0])
   xt = tf.constant(x)
   names = sorted(KNOB_CLASSES)
   for t, b in enumerate(behaviours):
+    if t % nshards != shard:
+      continue
     cls = names[t % len(names)]
     ste = not (cls in ("bits", "relu", "po2", "relu_po2") and (t // len(names)) % 3 == 2)
     mk = KNOB_CLASSES[cls]
@@ -188,14 +195,16 @@ def knob_replay(behaviours, events, rnd):
 
 def main():
   mode, bpath, out, tier, seed = sys.argv[1:6]
+  shard, nshards = (int(sys.argv[6]), int(sys.argv[7])) if len(sys.argv) > 7 else (0, 1)
   rnd = random.Random(int(seed))
   behaviours = json.load(open(bpath))
   events = []
   if mode == "sched":
-    n = sched_replay(behaviours, events)
-    n += fit_runs(rnd, 6 if tier == "quick" else 40, events, len(behaviours))
+    sched_replay(behaviours, events, shard, nshards)
+    fit_runs(int(seed), 6 if tier == "quick" else 40, events, len(behaviours), shard, nshards)
   else:
-    n = knob_replay(behaviours, events, rnd)
+    knob_replay(behaviours, events, rnd, shard, nshards)
+  n = len({e["t"] for e in events})
   write_ndjson(out, events)
   json.dump(ERRORS, open(out + ".err.json", "w"))
   print(json.dumps({"events": len(events), "traces": n}))
